@@ -98,10 +98,10 @@ def run? (v : Variant) (cfg : Cfg) : St α → List (Op α) → Option (St α)
 def seen (s : St α) : List α := (s.calls.map (·.2)).reverse
 
 /-- the content most recently handed to the callback, or `e0` when it never ran -/
-def lastSeen (e0 : α) (s : St α) : α :=
-  match s.calls with
+def lastSeenL (e0 : α) : List (Nat × α) → α
   | [] => e0
   | (_, c) :: _ => c
+def lastSeen (e0 : α) (s : St α) : α := lastSeenL e0 s.calls
 
 def Op.isWrite : Op α → Bool
   | .write _ => true
